@@ -20,7 +20,10 @@ RULE = ('A case = (setup ops run alone first, 2-3 actor scripts of 1-2 db_sessio
         'filter/where/order_by lambdas), kwargs filter, raw SQL with $params, raw_sql fragments, Entity[pk], collection '
         'load, count, entity and db.insert inserts (provider locks replaced by scheduler-aware locks), publish/foreign '
         '(an object of another actor\'s session used in a query, kwargs filter, assignment, set(), constructor, collection '
-        'add/remove/in, load()). Schedule = list of [yield-point number, k] pre-emptions (<=3; hand over to the k-th other ready actor); yield points are '
+        'add/remove/in, load(); query forms: generator, lambda, inside a list, count(); the same forms with objects of the own '
+        'session, before or after, so that the shared translator/SQL caches are cold or warm when the foreign object arrives; '
+        'loaded and unsaved objects; judged as "still open" only if the publishing db_session stayed open during the whole '
+        'operation). Schedule = list of [yield-point number, k] pre-emptions (<=3; hand over to the k-th other ready actor); yield points are '
         'operation/session boundaries plus line events of the traced Pony functions: mode "access" = only the lines '
         'that touch a shared cache (found by source text), mode "line" = every line. Enumerated part: for fixed scenarios '
         'every position of 1 and of 2 pre-emptions (complete; quick tier: scenario S1 with 2, the others with 1, access mode; '
@@ -31,6 +34,8 @@ RULE = ('A case = (setup ops run alone first, 2-3 actor scripts of 1-2 db_sessio
 ASSUMPTIONS = ['CPython 3.12 sys.settrace line events; only one actor thread is runnable at a time, so interleavings are at '
                'line granularity inside the traced functions (Query.__init__, _get_translator, _construct_sql_and_arguments, '
                '_process_lambda, _apply_kwargs, _order_by, _actual_fetch, adapt_sql, string2ast, decompile, create_extractors, '
+               'SQLTranslator.__init__/init/__enter__/__exit__ and Monad.__init__ at the lines that touch the per-thread stack of '
+               'translations in progress (so two translations of cache misses can overlap), '
                'get_lambda_args, parse_raw_sql, Database.insert, Entity._save_created_, EntityMeta._construct_sql_, '
                'EntityMeta._construct_batchload_sql_) and at operation '
                'granularity elsewhere; races inside C code or inside untraced functions are not explored; no pre-emption between '
@@ -82,6 +87,13 @@ SCENARIOS = [
      'actors': [_a([{'op': 'publish', 'what': 'P', 'id': 2}, {'op': 'get', 'id': 1}], [{'op': 'kw', 'a': 2}]),
                 _a([{'op': 'foreign', 'src': 0, 'mode': 'kw_filter'}, {'op': 'foreign', 'src': 0, 'mode': 'assign'},
                     {'op': 'foreign', 'src': 0, 'mode': 'load'}])]},
+    # S9: the query forms that take an entity parameter were already executed (by the setup, by this actor) with own
+    # objects -- the shared SQL cache is warm -- when a loaded / an unsaved object of the other actor's session arrives
+    {'name': 'S9-foreign-warm-cache', 'setup': [{'op': 'own_param', 'form': 'scalar', 'id': 1}, {'op': 'own_param', 'form': 'count', 'id': 1}],
+     'actors': [_a([{'op': 'publish', 'what': 'P', 'id': 2}, {'op': 'get', 'id': 1}, {'op': 'publish', 'what': 'newP', 'id': 0}, {'op': 'get', 'id': 3}]),
+                _a([{'op': 'own_param', 'form': 'list', 'id': 3}, {'op': 'foreign', 'src': 0, 'mode': 'query_param'},
+                    {'op': 'foreign', 'src': 0, 'mode': 'list_param'}, {'op': 'foreign', 'src': 0, 'mode': 'count_param'},
+                    {'op': 'foreign', 'src': 0, 'mode': 'lambda_param'}])]},
 ]
 
 
@@ -101,11 +113,11 @@ def enumeration_plan(tier):
 
 def _group_key(m):
     at = m.get('at', '')
-    return (m['kind'], m.get('error', ''), at.split(':', 1)[0], m.get('mode', ''))
+    return (m['kind'], m.get('error', ''), at.split(':', 1)[0], m.get('mode', ''), bool(m.get('src_alive')))
 
 
 def _compact(m):
-    c = {k: m[k] for k in ('kind', 'actor', 'error', 'at', 'mode') if k in m}
+    c = {k: m[k] for k in ('kind', 'actor', 'error', 'at', 'mode', 'src_alive') if k in m}
     if m.get('error') == 'KeyError':
         # is the missing key a query key (HashableDict(code_key=..., vartypes=..., ...))?
         c['missing_key_is_query_key'] = "interleaved: [\"err\", \"KeyError\", \"{'code_key':" in m.get('detail', '')
@@ -121,6 +133,8 @@ def _classes(case, info):
         cls.append('blocked_on_lock')
     if info.get('foreign_checked'):
         cls.append('foreign_judged')
+    if info.get('foreign_live_query_param'):
+        cls.append('foreign_live_query_param')   # object of a still open foreign session used as a query parameter
     pinned = {}
     for op in case.get('setup') or []:
         if op['op'] in O.PINNED_OPS:
@@ -266,6 +280,8 @@ def _strategies():
         'log_insert': st.fixed_dictionaries({'op': st.just('log_insert'), 'k': st.just(0), 'tag': st.sampled_from(['x', 'y'])}),
         'db_insert': st.fixed_dictionaries({'op': st.just('db_insert'), 'k': st.just(0), 'tag': st.sampled_from(['x', 'y'])}),
         'log_read': st.fixed_dictionaries({'op': st.just('log_read'), 'tag': st.sampled_from(['x', 'y', 'seed'])}),
+        'own_param': st.fixed_dictionaries({'op': st.just('own_param'), 'form': st.sampled_from(O.PARAM_FORMS),
+                                            'id': st.sampled_from([1, 2, 3])}),
     }
     pinned = list(O.PINNED_OPS)
     others = [t for t in templates if t not in pinned]
@@ -286,20 +302,24 @@ def _strategies():
 
     @st.composite
     def foreign_case(draw):
-        what = draw(st.sampled_from(['P', 'P', 'C']))
-        modes = O.FOREIGN_MODES_P if what == 'P' else O.FOREIGN_MODES_C
-        filler = st.sampled_from(['get', 'kw', 'children', 'lambda', 'slice_gen']).flatmap(lambda t: templates[t])
+        what = draw(st.sampled_from(['P', 'P', 'P', 'newP', 'C']))
+        modes = O.FOREIGN_MODES_C if what == 'C' else O.FOREIGN_MODES_P
+        # fillers include the legitimate use of OWN objects in the same query forms: whether the shared caches
+        # already hold the translation / SQL of a query must not change what happens to a foreign object
+        filler = st.sampled_from(['get', 'kw', 'children', 'lambda', 'slice_gen', 'own_param', 'own_param']
+                                 ).flatmap(lambda t: templates[t])
+        setup = draw(st.lists(templates['own_param'], min_size=0, max_size=2))
         pub = {'op': 'publish', 'what': what, 'id': draw(st.sampled_from([1, 2, 3]))}
-        first = [pub] + draw(st.lists(filler, min_size=0, max_size=2))
+        first = draw(st.lists(filler, min_size=0, max_size=1)) + [pub] + draw(st.lists(filler, min_size=0, max_size=2))
         a0 = [first] + draw(st.lists(st.lists(filler, min_size=1, max_size=1), min_size=0, max_size=1))
         uses = draw(st.lists(st.fixed_dictionaries({'op': st.just('foreign'), 'src': st.just(0), 'mode': st.sampled_from(modes)}),
                              min_size=1, max_size=3))
         tail = draw(st.lists(filler, min_size=0, max_size=2))
-        a1 = [draw(st.lists(filler, min_size=0, max_size=1)) + uses + tail]
+        a1 = [draw(st.lists(filler, min_size=0, max_size=2)) + uses + tail]
         actors = [a0, a1]
         if draw(st.booleans()):
             actors.append([draw(st.lists(filler, min_size=1, max_size=2))])
-        return _finish_case(draw, [], actors, op_level=True)
+        return _finish_case(draw, setup, actors, op_level=True)
 
     def _finish_case(draw, setup, actors, op_level=False):
         # inserted primary keys are made unique per actor (position among the actor's writes)
@@ -317,7 +337,7 @@ def _strategies():
         if op_level:
             # foreign-object cases always run in access mode; what matters is WHEN the publishing session is alive /
             # over, i.e. pre-emptions near operation boundaries (two ranges of positions: tight and wide)
-            bound = 2 * nops + 3 * nsess + 6 if mode == 'access' else 12 * nops
+            bound = 3 * nops + 3 * nsess + 6 if mode == 'access' else 14 * nops
             mode = 'access'
         else:
             bound = (9 * nops + 3 * nsess + 4) if mode == 'access' else (90 * nops + 10)
@@ -363,12 +383,14 @@ def _is_translator_del_race(case, message):
 
 
 def _is_foreign_query_param(case, message):
-    """C22-foreign-object-query-param: an entity instance of another thread's session used as a parameter of a
-    generator / lambda query is accepted silently (only its primary key is used; extract_vars/normalize never look at
-    obj._session_cache_), while the same object in a kwargs filter, assignment or collection operation raises
-    TransactionError."""
+    """C22-foreign-object-query-param (open part): an entity instance of another thread's db_session that is ALREADY
+    OVER, used as a parameter of a generator / lambda / aggregate query (scalar or inside a list), is accepted silently
+    (only its primary key is used), while the same object in a kwargs filter, assignment or collection operation raises
+    TransactionError.  An object of a session that is still open is rejected since the repair (Query._check_vars) and
+    is NOT covered by this predicate."""
     mm = case.get('mismatches') or []
-    return bool(mm) and all(m.get('kind') == 'foreign_accepted' and m.get('mode') in ('query_param', 'lambda_param') for m in mm)
+    return bool(mm) and all(m.get('kind') == 'foreign_accepted' and m.get('src_alive') is False
+                            and m.get('mode') in ('query_param', 'lambda_param', 'list_param', 'count_param') for m in mm)
 
 
 EXCLUSIONS = {'translator_del_race': _is_translator_del_race, 'foreign_query_param': _is_foreign_query_param}
@@ -378,11 +400,11 @@ MANIFEST = {
             'locks and at sys.settrace line events inside the Pony functions that read-then-write shared caches) runs 2-3 '
             'actors on one Database; hypothesis generates scripts (value-pinned translators, first uses, raw SQL, inserts, '
             'objects of another session) and schedules with <=3 pre-emptions, and every position of 1-2 pre-emptions is '
-            'enumerated completely for eight fixed scenarios. Each actor\'s results/errors are compared with its solo run on '
+            'enumerated completely for nine fixed scenarios. Each actor\'s results/errors are compared with its solo run on '
             'the same data; foreign-session objects must raise TransactionError. Sampled exploration plus a complete '
             'enumeration of a small finite schedule space; cannot establish the claim for all interleavings.',
     'note': 'Interleavings are at Python line granularity inside the traced functions only (no races inside C code, the '
-            'translator classes or the SQLite driver); SQLite only; the solo run of the same script is the reference, so a '
+            'SQLite driver, or the translator classes other than at their translation-stack accesses); SQLite only; the solo run of the same script is the reference, so a '
             'defect that also shows when running alone is out of scope here. Reading already-loaded attributes of a foreign '
             'object is not asserted to raise.',
     'technique': 'hypothesis-generated scripts and schedules + complete enumeration of 1-2 pre-emption positions, settrace-driven '
